@@ -417,7 +417,7 @@ def analyze(ctx, want):
     # index of the group that contains the id it held (the lookup may be a closure, a helper, position(), a loop: it is analysed
     # in place as the search it is)
     from .common import hit_is_index_of
-    ex, paths = run_fn(rn, F, LogModel(), inline=r"ids::StateID::new$")
+    ex, paths = run_fn(rn, F, LogModel(), inline=r"ids::StateID::new$|Minimizer::find_group$")     # (a lookup delegated to find_group is the same search)
     both = {"src": False, "tgt": False}
     bad_w = []
     for p in paths:
